@@ -37,6 +37,8 @@ def one(name, own_only, claimed):
     d = os.path.join(SEEDED, name)
     meta = json.load(open(os.path.join(d, "meta.json")))
     prop = meta["property"]
+    if meta.get("retired"):
+        return name, "retired (%s)" % meta["retired"].get("by_repo_commit")
     wt = tempfile.mkdtemp(prefix="rswt_")
     os.rmdir(wt)
     r = sh(["git", "-C", "/repo", "worktree", "add", "-q", "--detach", wt, "HEAD"])
@@ -74,11 +76,14 @@ def main():
     with ThreadPool(8) as tp:
         res = tp.starmap(one, [(n, own_only, claimed) for n in names])
     miss = 0
+    retired = 0
     for n, msg in res:
         print(n, msg)
-        if "own exit=1" not in msg:
+        if msg.startswith("retired"):
+            retired += 1
+        elif "own exit=1" not in msg:
             miss += 1
-    print("own-check detection: %d/%d" % (len(res) - miss, len(res)))
+    print("own-check detection: %d/%d%s" % (len(res) - retired - miss, len(res) - retired, " (%d retired)" % retired if retired else ""))
 
 
 if __name__ == "__main__":
